@@ -73,7 +73,8 @@ Definition update (d e : meta) : meta := fold_left (fun acc kv => upd acc (fst k
 
 (* ---- return forms of the run-function ---- *)
 (* the objective part: number | string | tuple or list of (finite) numbers *)
-Inductive robj := ONum (x : fnum) | OStr (s : Z) | OTup (l : list Z).
+(* OBad: a tuple / list one of whose members is not finite (its members do not matter: _on_done turns it into "F") *)
+Inductive robj := ONum (x : fnum) | OStr (s : Z) | OTup (l : list Z) | OBad.
 (* x | "F.." | (x, y)   or   {"objective": .., "metadata"?: {..}} *)
 Inductive rplain := PObj (o : robj) | PDict (o : robj) (md : option meta).
 (* plain, or the profiled form {"output": <plain>, "metadata": {..}} *)
@@ -90,11 +91,13 @@ Definition standardize (o : rfout) : robj * meta :=
   | Profiled (PDict ob md') md => (ob, update (update [] md) (mdflt md'))
   end.
 
-(* Evaluator._on_done: a scalar real non-finite objective is rewritten to FAIL_RETURN_VALUE *)
+(* Evaluator._on_done: a non-finite value, alone or as one member of a tuple / list, marks the evaluation as failed:
+   the objective is rewritten to FAIL_RETURN_VALUE *)
 Definition on_done (o : robj) : robj :=
   match o with
   | ONum (Fin z) => ONum (Fin z)
   | ONum _ => OStr tokF
+  | OBad => OStr tokF
   | other => other
   end.
 
@@ -128,6 +131,7 @@ Definition obj_entries (n : option nat) (o : robj) : result :=
   | OStr s => scalar_entries n (Str s)
   | ONum (Fin z) => scalar_entries n (Num z)
   | ONum _ => scalar_entries n (Str tokF)      (* not reachable after on_done *)
+  | OBad => scalar_entries n (Str tokF)        (* not reachable after on_done *)
   end.
 
 Definition mkresult (n : option nat) (j : job) : result :=
